@@ -4,6 +4,7 @@ import PyGam.Proofs.TensorPen
 import Mathlib.Algebra.Order.Ring.Defs
 import Mathlib.Tactic.Positivity
 import PyGam.Gen.Tables
+import PyGam.Gen.Decisions
 /-!
 # C04 — smoothing penalties measure exactly the roughness they promise (matrix level)
 
@@ -231,5 +232,38 @@ theorem gen_penalty_names : Gen.penaltyNames = some ["auto", "derivative", "l2",
 theorem gen_term_defaults :
     Gen.splinePenaltiesDefault = some "auto" ∧ Gen.splineBasisDefault = some "ps" := by
   decide
+
+/-! ### tie to the source by translation of the decision logic (`gen_decision_*`)
+
+`Gen/Decisions.lean` is regenerated on every run from the abstract syntax tree of `pygam/terms.py`: `Gen.resolve_penalty` is
+the run of `if` statements at the head of the loop of `Term.build_penalties` that turns one entry of `penalties` into a key of
+`PENALTIES` (`'auto'` by `dtype`, `_name`, `basis`; `None` ↦ `'none'`), as a function of those three attributes and of the
+entry.  The theorems state that it IS the resolution `Marg.resolvePen` of the model (`Model/Terms.lean`) for the three
+non-tensor term classes with the `dtype` their constructors set. -/
+section gen_decisions
+/-- the keys of `PENALTIES` / the strings a penalty is given as -/
+def penName : PenKind → String
+  | .auto => "auto" | .derivative => "derivative" | .l2 => "l2" | .none => "none" | .periodic => "periodic"
+/-- `Term._name` of the three non-tensor term classes -/
+def margTermName : MargKind → String
+  | .linear => "linear_term" | .spline => "spline_term" | .factor => "factor_term"
+/-- `dtype` as the constructors set it: `FactorTerm` categorical, `LinearTerm` / `SplineTerm` numerical (their default) -/
+def margDtype : MargKind → String
+  | .factor => "categorical" | _ => "numerical"
+
+/-- the `'auto'` resolution of the source is `Marg.resolvePen`: numerical spline ↦ `'derivative'` (`basis = 'cp'`:
+`'periodic'`), linear and factor ↦ `'l2'`, every other name unchanged (30 cases, each by evaluation) -/
+theorem gen_decision_resolve_penalty (m : Marg α) (k : PenKind) :
+    Gen.resolve_penalty (margDtype m.kind) (margTermName m.kind) (if m.cyclic then "cp" else "ps") (some (penName k))
+      = some (penName (m.resolvePen k)) := by
+  rcases m with ⟨kind, _, _, _, cyclic, _, _, _, _, _, _, _⟩
+  cases kind <;> cases cyclic <;> cases k <;> simp only [Marg.resolvePen, margDtype, margTermName, penName] <;> rfl
+
+/-- `None` is the penalty `'none'` (`PenKind.none`), whatever the term -/
+theorem gen_decision_penalty_none (dtype name basis : String) :
+    Gen.resolve_penalty dtype name basis none = some (penName .none) := by
+  simp [Gen.resolve_penalty, penName]
+
+end gen_decisions
 
 end PyGam.C04
